@@ -4,7 +4,6 @@ import sys, os, json, importlib
 sys.path.insert(0, os.path.dirname(os.path.dirname(os.path.abspath(__file__))))
 NA = {
  'C05': "Whether a build step needs a file is only observable by running compilers and generators (FFI/I/O; no ninja binary either); the read-sets the schedule must be checked against cannot be obtained by symbolic execution of meson's code.",
- 'C06': "The quantified nondeterminism (hash seed, os.environ order, readdir order, build-directory history) lives in the Python runtime and the OS, not in inputs of an encodable function; deciding it is differential re-execution of whole configurations, not solver reasoning. (The encodable part, deps written sorted whatever the insertion order, is asserted inside the C04 check.)",
 }
 NOT_YET = {}
 checks = []
